@@ -412,8 +412,12 @@ def record_tables(draw: Any, max_recs: int = 12,
                                               9, 11) if v <= max_recs]))
     algos = draw(st.lists(st.sampled_from(ALGO_POOL), min_size=1, max_size=2,
                           unique=True))
-    objs = draw(st.lists(st.integers(0, 6), min_size=1, max_size=3,
-                         unique=True))
+    # index 7 = a user-defined objective ("excessBins" = bins above the lower
+    # bound, so 0 for optimal packings) evaluated next to the seven built-in
+    # ones: the only way to get objective values and bounds equal to 0
+    custom = draw(st.booleans())
+    objs = draw(st.lists(st.integers(0, 7 if custom else 6), min_size=1,
+                         max_size=3, unique=True))
     encs = draw(st.lists(st.sampled_from(ENC_POOL), min_size=1, max_size=2))
     goal_mode = draw(st.sampled_from(goal_modes))
     budget_mode = draw(st.sampled_from(["per_record", "all", "none"]))
@@ -465,4 +469,5 @@ def record_tables(draw: Any, max_recs: int = 12,
             "fe_extra": draw(st.integers(0, 1000)),
             "t_extra": draw(st.integers(0, 5000)),
             "goal": goal, "max_fes_extra": mfe, "max_t": mt})
-    return {"insts": insts, "recs": recs, "goal_mode": goal_mode}
+    return {"insts": insts, "recs": recs, "goal_mode": goal_mode,
+            "custom": custom}
